@@ -443,6 +443,17 @@ example : ∃ P, plainOf (receiveData (K := idCodec) (fun _ _ => []) { side := .
   refine ⟨[1, 2, 3], ?_, rfl⟩
   decide
 
+/-- the whole-history theorems are not vacuous: the pass-through engine's initial object is `Fresh`, so `child_stream_exact`,
+    `peer_stream_exact`, … apply to every history of a layer whose tls_start hook hands it over -/
+example : ∀ c, (({ mkTls := some {}, parse := fun _ => .complete, serverFirst := false } : Env idCodec).mkTls = some c) → Fresh idLaws c := by
+  intro c hc
+  injection hc with hc
+  subst hc
+  exact ⟨rfl, rfl, rfl, rfl⟩
+
+example : (run (K := idCodec) { mkTls := some {}, parse := fun _ => .complete, serverFirst := false } (fun _ _ => []) (init idCodec .server)
+    [.start true, .data [1, 2], .data [3]]).crashed = false := by decide
+
 /-- the model is not constant: a handshake-phase event is stored, an open tunnel delivers -/
 example : (eventToChild (K := idCodec) (fun _ _ => []) { side := .client, st := .establishing } (.other 7)).toChild = [] := by decide
 example : (eventToChild (K := idCodec) (fun _ _ => []) { side := .client, st := .open_ } (.other 7)).toChild = [.other 7] := by decide
